@@ -32,6 +32,7 @@ type Evaluator struct {
 	endRules       []*Rule
 	endFileRules   []*Rule
 	fuzzing        bool
+	evalDepth      int
 }
 
 var (
@@ -44,6 +45,11 @@ var (
 
 var fuzzingLoopLimit = 10000
 var callDepthLimit = 4096
+
+// evalDepthLimit bounds how deeply evalExpr/evalStatement may nest, calls
+// included. Without it deeply nested code inside a recursive function
+// multiplies the call depth limit and overflows the Go stack.
+var evalDepthLimit = 100000
 
 func NewEvaluator(prog Program, lexer *Lexer, stdout io.Writer) Evaluator {
 	e := Evaluator{
@@ -216,6 +222,11 @@ func (e *Evaluator) evalString(str string) (*Cell, error) {
 func (e *Evaluator) evalExpr(expr Expr) (*Cell, error) {
 	if err := verifStep(expr); err != nil {
 		return nil, err
+	}
+	e.evalDepth++
+	defer func() { e.evalDepth-- }()
+	if e.evalDepth > evalDepthLimit {
+		return nil, e.error(Token{}, "evaluation nested too deeply")
 	}
 	switch exp := expr.(type) {
 	case *ExprLiteral:
@@ -862,6 +873,11 @@ func (e *Evaluator) evalExprList(exprs []Expr, copy bool) ([]*Cell, error) {
 func (e *Evaluator) evalStatement(stmt Statement) error {
 	if err := verifStep(stmt); err != nil {
 		return err
+	}
+	e.evalDepth++
+	defer func() { e.evalDepth-- }()
+	if e.evalDepth > evalDepthLimit {
+		return e.error(Token{}, "evaluation nested too deeply")
 	}
 	switch st := stmt.(type) {
 	case *StatementBlock:
